@@ -15,6 +15,7 @@ type frameCell struct {
 	key   string // heap component
 	c     string // condition on (p) for C components, on (p, i) for B components
 	isB   bool
+	pc    string // B components: a condition on p alone implied by c (the block the cell lives in); see frameBlockCond in ext_crypto.go
 }
 
 type frameInfo struct {
@@ -38,7 +39,7 @@ func (fc *FnCtx) cellsOf(addr string, t types.Type, out *[]frameCell) {
 		if isLeaf(a.Elem()) {
 			k, s := fc.bKey(a.Elem())
 			fc.registerComp(k, s)
-			*out = append(*out, frameCell{key: k, isB: true, c: eq("p", addr)})
+			*out = append(*out, frameCell{key: k, isB: true, c: eq("p", addr), pc: eq("p", addr)})
 			return
 		}
 		if a.Len() <= 16 {
@@ -53,7 +54,7 @@ func (fc *FnCtx) cellsOf(addr string, t types.Type, out *[]frameCell) {
 	fc.registerComp(ck, cs)
 	fc.registerComp(bk, bs)
 	if par, idx, ok := isElemTerm(addr); ok {
-		*out = append(*out, frameCell{key: bk, isB: true, c: and(eq("p", par), eq("i", idx))})
+		*out = append(*out, frameCell{key: bk, isB: true, c: and(eq("p", par), eq("i", idx)), pc: eq("p", par)})
 		return
 	}
 	if isConsTerm(addr) {
@@ -62,7 +63,7 @@ func (fc *FnCtx) cellsOf(addr string, t types.Type, out *[]frameCell) {
 	}
 	isE := "((_ is Elem) " + addr + ")"
 	*out = append(*out, frameCell{key: ck, c: and(not(isE), eq("p", addr))})
-	*out = append(*out, frameCell{key: bk, isB: true, c: and(isE, eq("p", app("epar", addr)), eq("i", app("eix", addr)))})
+	*out = append(*out, frameCell{key: bk, isB: true, c: and(isE, eq("p", app("epar", addr)), eq("i", app("eix", addr))), pc: and(isE, eq("p", app("epar", addr)))})
 }
 
 // computeFrame evaluates the modifies clause of the top-level function in its entry state.
@@ -108,13 +109,16 @@ func (fr *Frame) computeFrame(st0 *State) {
 				if isLeaf(et) {
 					k, s := fc.bKey(et)
 					fc.registerComp(k, s)
-					fi.cells = append(fi.cells, frameCell{key: k, isB: true, c: and(eq("p", sarr(v.t)), inWin("i"))})
+					fi.cells = append(fi.cells, frameCell{key: k, isB: true, c: and(eq("p", sarr(v.t)), inWin("i")), pc: eq("p", sarr(v.t))})
 				} else {
 					// elements are aggregates living at Elem(arr, j): every cell below such an element
 					var sub []frameCell
 					fc.cellsOf("(Elem "+sarr(v.t)+" wj)", et, &sub)
 					for _, c := range sub {
 						c.c = fmt.Sprintf("(exists ((wj Int)) (and %s %s))", inWin("wj"), c.c)
+						if c.pc != "" {
+							c.pc = fmt.Sprintf("(exists ((wj Int)) (and %s %s))", inWin("wj"), c.pc)
+						}
 						fi.cells = append(fi.cells, c)
 					}
 				}
@@ -209,6 +213,9 @@ func (fr *Frame) assumeFrame(st *State, g string, only map[string]bool) {
 		}
 		if c := fr.frameCond(k, h); c != "" {
 			fc.assume(g, c)
+			if bc := fr.frameBlockCond(k, h); bc != "" {
+				fc.assume(g, bc) // a consequence of c by array extensionality, stated so that the solver need not find it
+			}
 		}
 	}
 }
